@@ -333,8 +333,24 @@ fn family_doc(f: Family, p: usize, k: Knobs) -> (String, Option<String>) {
             for i in 0..p {
                 t.push_str(&format!("fragment F{} on Query {{", i));
                 if i + 1 < p {
-                    for _ in 0..spreads {
+                    for j in 0..spreads {
+                        // where the j-th spread sits: variant 0 all at the fragment's top level; 1 / 2 every other one
+                        // inside an inline fragment / a field (shallow, deeper, shallow, deeper); 3 each one level
+                        // deeper than the one before; 4 each one level shallower
+                        let (wraps, open, close) = match k.variant % 5 {
+                            0 => (0, "", ""),
+                            1 => (j % 2, " ... on Query {", " }"),
+                            2 => (j % 2, " q {", " }"),
+                            3 => (j, " ... {", " }"),
+                            _ => (spreads - 1 - j, " ... {", " }"),
+                        };
+                        for _ in 0..wraps {
+                            t.push_str(open);
+                        }
                         t.push_str(&format!(" ...F{}", i + 1));
+                        for _ in 0..wraps {
+                            t.push_str(close);
+                        }
                     }
                 } else {
                     t.push_str(" n");
@@ -480,9 +496,11 @@ pub fn run(ctx: &mut Ctx) {
     for (k, ns) in [(2usize, vec![3usize, 4, 5, 6, 7, 8, 9, 10]), (3, vec![2, 3, 4, 5, 6]), (4, vec![2, 3, 4, 5])] {
         for n in ns {
             // n -> 2n levels; the witness of the property record is k=2, n=22 (not run: 2^22 selections per walker)
-            let c = ladder_case(&env, open, Family::FanOutChain, &[n, 2 * n], Knobs { w: k, variant: 0 }, generous, &timing).class("fan-out-chain");
-            count += 1;
-            ctx.check_case("fan-out-chains", c, serde_json::json!({"spreads_per_level": k, "levels": n}));
+            for variant in 0..5 {
+                let c = ladder_case(&env, open, Family::FanOutChain, &[n, 2 * n], Knobs { w: k, variant }, generous, &timing).class("fan-out-chain").class(format!("fan-out-chain-variant-{}", variant));
+                count += 1;
+                ctx.check_case("fan-out-chains", c, serde_json::json!({"spreads_per_level": k, "levels": n, "variant": variant}));
+            }
         }
     }
     ctx.enumerated("fan-out-chains", count, true, t0);
